@@ -67,8 +67,9 @@ class Contract(object):
     def __init__(self, target, params=None, cases=None, requires=(), ensures=(), raises=None,
                  raises_ensures=None, returns=None, assigns=(), loops=None, inline=(), specns=None,
                  prop=None, note='', pure=False, may_raise_any=False, trusted=False, exc_ensures=(),
-                 setup=None, model=None, raises_local=None, raises_only_if=None, heavy=False):
+                 setup=None, model=None, raises_local=None, raises_only_if=None, heavy=False, ghost=None):
         self.target = target
+        self.ghost = ghost or {}        # name -> spec expression evaluated (and frozen) at function entry
         self.heavy = heavy              # many paths: explore in parallel worker processes
         self.raises_only_if = raises_only_if or {}   # class -> pre-state condition implied by the raise
         self.raises_local = raises_local or {}   # class -> condition over the locals at the raise
@@ -323,6 +324,9 @@ class Engine(object):
         lg = getattr(fr, 'loop_ghosts', None)
         if lg:
             ghosts = dict(lg, **ghosts)
+        eg = getattr(fr, 'entry_ghosts', None)
+        if eg:
+            ghosts = dict(eg, **ghosts)
         sfr = Frame(fr.module, fr.qualname, dict(ghosts), parent=fr, cls=fr.cls, spec=True)
         sfr.selfv = fr.selfv
         ns = dict(self.specns)
@@ -949,6 +953,13 @@ class Engine(object):
         sfr = self.spec_frame(fr, {})
         for r in c.requires:
             ctx.assume(self.eval_spec(ctx, sfr, r))
+        fr.entry_ghosts = {}
+        for gname, gexpr in c.ghost.items():
+            ctx.no_branch = getattr(ctx, 'no_branch', 0) + 1
+            try:
+                fr.entry_ghosts[gname] = self.freeze(ctx, I.ev(ctx, sfr, ast.parse(gexpr, mode='eval').body))
+            finally:
+                ctx.no_branch -= 1
         old = (ctx.snapshot_heap(), dict(loc), dict(ctx.attr))
         try:
             try:
